@@ -3,6 +3,7 @@ module verif.local/mc
 go 1.18
 
 require (
+	github.com/containernetworking/cni v0.8.0
 	github.com/emicklei/go-restful v2.10.0+incompatible
 	k8s.io/api v0.24.3
 	k8s.io/apiextensions-apiserver v0.24.3
@@ -16,7 +17,6 @@ require (
 require (
 	github.com/beorn7/perks v1.0.1 // indirect
 	github.com/cespare/xxhash/v2 v2.1.2 // indirect
-	github.com/containernetworking/cni v0.8.0 // indirect
 	github.com/containernetworking/plugins v0.8.7 // indirect
 	github.com/coreos/go-iptables v0.4.5 // indirect
 	github.com/davecgh/go-spew v1.1.1 // indirect
